@@ -9,7 +9,7 @@ store, in the two shapes the point-in-time SQL uses: a sum over the moves in the
 the effective volumes of the latest move at or before the point in time.  The SQL queries
 themselves are not tied here (SQL area).
 -/
-namespace Ledger.C05
+namespace Ledger.C05store
 open Ledger.Base Ledger.Core Ledger.Spec
 
 /-- In every reachable store, summing the moves of an account/asset whose (insertion or
@@ -36,4 +36,4 @@ example : (runOps [.commit { postings := [⟨"world", "a", 10, "USD"⟩], timest
                         movesWindowVolumes st.moves { oot := some 8 } .insertion ("a", "USD"))) =
           some (⟨0, 4⟩, ⟨10, 4⟩, ⟨0, 4⟩) := by decide
 
-end Ledger.C05
+end Ledger.C05store
